@@ -41,7 +41,8 @@ FMTS = ["i", "I", "q", "Q", "x"]
 AMOUNTS = ["const", "negconst", "isub", "reg", "expr", "fixedconst",
            "isubreg", "isubexpr", "var_i", "isubvar_i", "var_I", "regw",
            "isubregw", "isubfixedconst", "var_q", "local_i",
-           "var_x", "isubvar_x", "isubxexpr"]
+           "var_x", "isubvar_x", "isubxexpr",
+           "zero_then_const", "mm_same"]
 FIXED_ONLY = ("fixedconst", "isubfixedconst", "var_x", "isubvar_x",
               "isubxexpr")
 KINDS = ["array", "dict", "local", "percpu"]
@@ -49,7 +50,8 @@ KINDS = ["array", "dict", "local", "percpu"]
 
 def plan(tier, seed):
     combos = [(f, k, a) for f in FMTS for k in KINDS for a in AMOUNTS
-              if not (a in FIXED_ONLY and f != "x")]
+              if not (a in FIXED_ONLY and f != "x")
+              and not (a == "mm_same" and f == "x")]
     n = 16
     shards = [dict(seed=seed, shard=i, combos=combos[i::n], tier=tier)
               for i in range(n)]
@@ -157,6 +159,22 @@ def build(fmt, kind, amount, amount_value):
                 cur -= e.amt_x
             elif amount == "isubxexpr":
                 cur -= e.amt_x * 2
+            elif amount == "zero_then_const":
+                # an addition of nothing followed by a real one: between
+                # the two another instance's addition must not get lost
+                cur += 0
+                setattr(obj, name, cur)
+                cur = getattr(obj, name)
+                cur += amount_value
+            elif amount == "mm_same" and kind == "array":
+                # target and amount both addressed through the same
+                # memory-map view (e.mQ[...] += e.mQ[...])
+                mm = e.mQ if size == 8 else e.mI
+                mm[e.r7 + e.__dict__["cell"]] += \
+                    mm[e.r7 + e.__dict__["amt" if size == 8 else "amt_I"]]
+                return
+            elif amount == "mm_same":
+                cur += e.amt if size == 8 else e.amt_I
             setattr(obj, name, cur)
         if kind == "dict":
             do(value, "c")
@@ -204,6 +222,10 @@ def amount_raw(fmt, amount, amount_value, amt_in):
         d = amt_in & 0xffffffff
     elif amount == "isubregw":
         d = -(amt_in & 0xffffffff)
+    elif amount == "zero_then_const":
+        d = amount_value
+    elif amount == "mm_same":
+        return amt_in if fmt in "qQx" else amt_in & 0xffffffff
     elif amount == "var_x":
         return amt_in           # fixed-point amounts: raw units
     elif amount == "isubvar_x":
@@ -690,6 +712,7 @@ def finalize(res, tier, seed):
     c = res.counters
     missing = [f"{f}/{k}/{a}" for f in FMTS for k in ("array", "dict")
                for a in AMOUNTS if not (a in FIXED_ONLY and f != "x")
+               and not (a == "mm_same" and f == "x")
                and not c.get(f"schedules[{f}/{k}/{a}/2]")]
     res.info["shared_combinations_without_schedules"] = missing
     if missing:
